@@ -98,7 +98,7 @@ func VerifC03_Truthy() {
 	if present {
 		data["v"] = v
 	}
-	out, err := zzRender(NewFS(nil), zzC03TruthyTpl, data)
+	out, err := zzRenderVia(zzEntry(), nil, nil, zzC03TruthyTpl, data)
 	zzNote("out", out)
 	zzNote("truthy", truthy)
 	if err != nil {
@@ -246,7 +246,7 @@ func VerifC03_Chain() {
 		}
 	}
 
-	out, err := zzRender(NewFS(nil), body, data)
+	out, err := zzRenderVia(zzEntry(), nil, nil, body, data)
 	zzNote("template", body)
 	zzNote("out", out)
 	zzAssert(err == nil, "C03.chain.render-error")
